@@ -257,7 +257,7 @@ func (w *Worker) runPath(harness *ssa.Function, prefix []Decision) (res PathResu
 	}()
 
 	// model of the path (for crash reports, observes, translator validation)
-	needModel := res.Outcome == "panic" || res.Outcome == "deadlock" || res.Outcome == "ok"
+	needModel := res.Outcome == "panic" || res.Outcome == "deadlock" || res.Outcome == "ok" || (res.Outcome == "aborted" && e.race != nil && len(e.race.races) > 0)
 	if needModel {
 		if m, ok := path.CurrentModel(); ok {
 			for k, v := range path.bounds {
@@ -272,7 +272,7 @@ func (w *Worker) runPath(harness *ssa.Function, prefix []Decision) (res PathResu
 			path.inconcl = append(path.inconcl, "no model for crash path")
 		}
 	}
-	if e.race != nil && len(e.race.races) > 0 && (res.Outcome == "ok" || res.Outcome == "panic") {
+	if e.race != nil && len(e.race.races) > 0 && (res.Outcome == "ok" || res.Outcome == "panic" || res.Outcome == "aborted") {
 		var keys []string
 		for k := range e.race.races {
 			keys = append(keys, k)
